@@ -6,7 +6,11 @@
    Stage 2  tokinv: shaped + follow + first-token condition  ==>
             tokens_of_string (texts toks) = (repos 0 toks, TEnd).
    Stage 3  tokens_shaped: the converse for tokenizer outputs; retokenize_id;
-            drop_spacer(s)_retokenize.
+            drop_spacer(s)_retokenize (with the three side conditions the
+            proof forces, each with a refutation replayed on the code).
+   Stage 4  insert_retokenize / insert_closer_retokenize: stability under
+            inserted closers ("}", "]", "\end{name}": tolerant mode).
+   Also     no_linebreak_token, escape_follow_is_letter, start_quirk_first_token.
 
    All texts are NUL/DEL-free (no character of a Tables.ignore_cats category):
    this is part of `shape`.  Every fact about a generated table is obtained by
@@ -1481,16 +1485,16 @@ Qed.
 
 (* a sizing command that matches after the deletion but not before it must
    reach across the deleted spacer *)
-Lemma prefix_beyond (X : str) : forall D SP T,
-  firstn (length D) (X ++ T) = D -> firstn (length D) (X ++ SP ++ T) <> D ->
-  exists D2, D = X ++ D2 /\ D2 <> [] /\ firstn (length D2) T = D2.
+Lemma prefix_beyond (X : str) : forall D T1 T2,
+  firstn (length D) (X ++ T1) = D -> firstn (length D) (X ++ T2) <> D ->
+  exists D2, D = X ++ D2 /\ D2 <> [] /\ firstn (length D2) T1 = D2.
 Proof.
-  induction X as [|x X IH]; intros D SP T H1 H2.
+  induction X as [|x X IH]; intros D T1 T2 H1 H2.
   - cbn [app] in *. exists D. split; [reflexivity|]. split; [|exact H1].
     intro E. subst D. apply H2. reflexivity.
   - destruct D as [|d D]; [exfalso; apply H2; reflexivity|].
     cbn [app length firstn] in H1, H2. injection H1 as E1 E2. subst d.
-    destruct (IH D SP T E2) as (D2 & A & B & C).
+    destruct (IH D T1 T2 E2) as (D2 & A & B & C).
     + intro E. apply H2. rewrite E. reflexivity.
     + exists D2. split; [cbn [app]; f_equal; exact A|]. split; assumption.
 Qed.
@@ -1650,7 +1654,692 @@ Proof.
       cbn [pre_ok] in *. rewrite Hpre, andb_true_r.
       unfold followc in *. rewrite !texts_hd_cons by exact Hne'.
       rewrite !texts_hd_cons in Hfc by exact Hne'.
-      destruct (tcat t) eqn:Ek; try exact Hfc.
+      destruct (tcat t) eqn:Ek; cbv beta iota in Hfc |- *;
+        match goal with |- context [find_point] => idtac | _ => exact Hfc end.
       apply andb_true_iff in Hfc. destruct Hfc as [Hls _]. rewrite Hls. cbn [andb].
       rewrite (cmd_find_stable t t' a' sp o b Hsh Hfo0 Ek Hk Ho). reflexivity.
+Qed.
+
+(* a CommandName that is not the letter part of a sizing command never fuses
+   with what follows: a simple sufficient condition for last_ok *)
+Fixpoint take_ls (s : str) : str :=
+  match s with c :: s' => if ls_c c then c :: take_ls s' else [] | [] => [] end.
+
+Definition sizing_prefixes : list str := map take_ls points.
+
+Lemma take_ls_app cmd D :
+  forallb ls_c cmd = true -> nc_not ls_c (hd_error D) = true -> take_ls (cmd ++ D) = cmd.
+Proof.
+  induction cmd as [|c cmd IH]; intros H HD.
+  - cbn [app]. destruct D as [|d D']; [reflexivity|]. cbn [hd_error nc_not] in HD.
+    apply negb_true_iff in HD. cbn [take_ls]. rewrite HD. reflexivity.
+  - cbn [forallb] in H. apply andb_true_iff in H. destruct H as [H1 H2].
+    cbn [app take_ls]. rewrite H1, (IH H2 HD). reflexivity.
+Qed.
+
+Lemma drop_ls_head s : nc_not ls_c (hd_error (drop_ls s)) = true.
+Proof.
+  induction s as [|c s IH]; [reflexivity|]. cbn [drop_ls].
+  destruct (ls_c c) eqn:E; [exact IH|]. cbn [hd_error nc_not]. rewrite E. reflexivity.
+Qed.
+
+Theorem cmd_not_sizing_ok l rest :
+  shape l = true -> tcat l = TCommandName -> nc_not ls_c (hd_error rest) = true ->
+  mem_str (ttext l) sizing_prefixes = false ->
+  last_tok_ok l rest = true.
+Proof.
+  intros Hs Hk Hr Hm. unfold last_tok_ok. rewrite Hk.
+  destruct (find_point points (ttext l ++ rest)) as [q|] eqn:E; [|reflexivity].
+  exfalso. apply find_point_in in E. destruct E as [Iq Fq].
+  assert (Hcmd : forallb ls_c (ttext l) = true).
+  { unfold shape in Hs. apply andb_true_iff in Hs. destruct Hs as [_ Hs]. rewrite Hk in Hs.
+    cbn [shape_cat] in Hs. destruct (ttext l) as [|c m]; [discriminate Hs|].
+    apply andb_true_iff in Hs. destruct Hs as [H1 H2]. cbn [forallb]. unfold ls_c at 1.
+    rewrite H1, H2. reflexivity. }
+  pose proof points_delim_ok_b as B. rewrite forallb_forall in B. specialize (B q Iq).
+  unfold delim_ok_b in B.
+  assert (Hdq : drop_ls q <> []) by (destruct (drop_ls q); [discriminate B | discriminate]).
+  destruct (ls_prefix_split (ttext l) q rest Hcmd Hr Fq Hdq) as [Eq _].
+  assert (Hin : In (ttext l) sizing_prefixes).
+  { unfold sizing_prefixes. apply in_map_iff. exists q. split; [|exact Iq].
+    rewrite Eq. apply take_ls_app; [exact Hcmd | apply drop_ls_head]. }
+  apply In_mem_str in Hin. congruence.
+Qed.
+
+Lemma pre_ok_drop a sp o b :
+  open_tok o -> pre_ok false (a ++ sp :: o :: b) = true -> pre_ok false (a ++ o :: b) = true.
+Proof.
+  intros Ho H. destruct a as [|t a]; [|exact H]. cbn [app pre_ok]. unfold pre_tok.
+  destruct Ho as [Ho|Ho]; rewrite Ho; reflexivity.
+Qed.
+
+(* deleting an argument spacer from the text deletes exactly that token *)
+Theorem drop_spacer_retokenize a sp o b :
+  shaped (a ++ sp :: o :: b) -> follows_ok (a ++ sp :: o :: b) = true ->
+  first_ok (a ++ sp :: o :: b) = true ->
+  tcat sp = TMergedSpacer -> open_tok o -> last_ok a (texts (o :: b)) = true ->
+  start_quirk (texts (a ++ o :: b)) = false ->
+  shaped (a ++ o :: b) /\ follows_ok (a ++ o :: b) = true /\ first_ok (a ++ o :: b) = true /\
+  tokens_of_string (texts (a ++ o :: b)) = (repos 0 (a ++ o :: b), TEnd).
+Proof.
+  intros Hsh Hfo Hfirst Hk Ho Hl Hq.
+  destruct (drop_spacer_chain sp o b a Hsh Hfo Hk Ho Hl) as [S1 S2].
+  assert (S3 : first_ok (a ++ o :: b) = true).
+  { unfold first_ok in *. apply andb_true_iff in Hfirst. destruct Hfirst as [Hpre _].
+    rewrite (pre_ok_drop a sp o b Ho Hpre), Hq. reflexivity. }
+  repeat split; try assumption. apply tokinv; assumption.
+Qed.
+
+(* the same for a token list that the tokenizer produced *)
+Theorem drop_spacer_retokenize_output s e a sp o b :
+  clean s = true -> start_quirk s = false ->
+  tokens_of_string s = (a ++ sp :: o :: b, e) ->
+  tcat sp = TMergedSpacer -> open_tok o -> last_ok a (texts (o :: b)) = true ->
+  start_quirk (texts (a ++ o :: b)) = false ->
+  tokens_of_string (texts (a ++ o :: b)) = (repos 0 (a ++ o :: b), TEnd).
+Proof.
+  intros Hcl Hq E Hk Ho Hl Hq'.
+  destruct (tokens_shaped s Hcl Hq) as (toks & E' & _ & T2 & T3 & T4 & _).
+  rewrite E in E'. injection E' as E1 E2. subst toks.
+  apply (drop_spacer_retokenize a sp o b); assumption.
+Qed.
+
+(* any set of argument spacers, deleted one after the other *)
+Inductive DropSp : list token -> list token -> Prop :=
+| DS_done l : DropSp l l
+| DS_step a sp o b l' :
+    tcat sp = TMergedSpacer -> open_tok o -> last_ok a (texts (o :: b)) = true ->
+    DropSp (a ++ o :: b) l' -> DropSp (a ++ sp :: o :: b) l'.
+
+Theorem drop_spacers_retokenize l l' :
+  DropSp l l' -> shaped l -> follows_ok l = true -> first_ok l = true ->
+  start_quirk (texts l') = false ->
+  shaped l' /\ follows_ok l' = true /\ first_ok l' = true /\
+  tokens_of_string (texts l') = (repos 0 l', TEnd).
+Proof.
+  intros D Hsh Hfo Hfirst Hq.
+  assert (Hpre : pre_ok false l = true).
+  { unfold first_ok in Hfirst. apply andb_true_iff in Hfirst. tauto. }
+  clear Hfirst.
+  assert (G : shaped l' /\ follows_ok l' = true /\ pre_ok false l' = true).
+  { induction D as [l | a sp o b l' Hk Ho Hl D IH]; [repeat split; assumption|].
+    destruct (drop_spacer_chain sp o b a Hsh Hfo Hk Ho Hl) as [S1 S2].
+    apply IH; try assumption. apply (pre_ok_drop a sp o b Ho Hpre). }
+  destruct G as (G1 & G2 & G3).
+  assert (G4 : first_ok l' = true) by (unfold first_ok; rewrite G3, Hq; reflexivity).
+  repeat split; try assumption. apply tokinv; assumption.
+Qed.
+
+(* ---- the side conditions are needed: refutations, replayed on the code *)
+
+(* "\left {": the sizing prefix fuses with the brace *)
+Theorem drop_spacer_sizing_refuted :
+  exists s a sp o b,
+    clean s = true /\ start_quirk s = false /\
+    tokens_of_string s = (a ++ sp :: o :: b, TEnd) /\
+    tcat sp = TMergedSpacer /\ tcat o = TGroupBegin /\
+    start_quirk (texts (a ++ o :: b)) = false /\
+    map ttext (fst (tokens_of_string (texts (a ++ o :: b)))) <> map ttext (a ++ o :: b).
+Proof.
+  exists [92; 108; 101; 102; 116; 32; 123]%N,
+         [mkt [92]%N 0%Z TEscape; mkt [108; 101; 102; 116]%N 1%Z TCommandName],
+         (mkt [32]%N 5%Z TMergedSpacer), (mkt [123]%N 6%Z TGroupBegin), [].
+  vm_compute. repeat split; discriminate.
+Qed.
+
+(* "%c" eol "{": the comment swallows the brace *)
+Theorem drop_spacer_comment_refuted :
+  exists s a sp o b,
+    clean s = true /\ start_quirk s = false /\
+    tokens_of_string s = (a ++ sp :: o :: b, TEnd) /\
+    tcat sp = TMergedSpacer /\ tcat o = TGroupBegin /\
+    start_quirk (texts (a ++ o :: b)) = false /\
+    map ttext (fst (tokens_of_string (texts (a ++ o :: b)))) <> map ttext (a ++ o :: b).
+Proof.
+  exists [37; 99; 10; 123]%N, [mkt [37; 99]%N 0%Z TComment],
+         (mkt [10]%N 2%Z TMergedSpacer), (mkt [123]%N 3%Z TGroupBegin), [].
+  vm_compute. repeat split; discriminate.
+Qed.
+
+(* "a\b {cccccccccc\x": the deletion moves an escape to index 14, which
+   switches on the index-0 quirk: the first token becomes a CommandName *)
+Theorem drop_spacer_quirk_refuted :
+  exists s a sp o b,
+    clean s = true /\ start_quirk s = false /\
+    tokens_of_string s = (a ++ sp :: o :: b, TEnd) /\
+    tcat sp = TMergedSpacer /\ tcat o = TGroupBegin /\
+    last_ok a (texts (o :: b)) = true /\
+    map tcat (fst (tokens_of_string (texts (a ++ o :: b)))) <> map tcat (a ++ o :: b).
+Proof.
+  exists [97; 92; 98; 32; 123; 99; 99; 99; 99; 99; 99; 99; 99; 99; 99; 92; 120]%N,
+         [mkt [97]%N 0%Z TText; mkt [92]%N 1%Z TEscape; mkt [98]%N 2%Z TCommandName],
+         (mkt [32]%N 3%Z TMergedSpacer), (mkt [123]%N 4%Z TGroupBegin),
+         [mkt [99; 99; 99; 99; 99; 99; 99; 99; 99; 99]%N 5%Z TText; mkt [92]%N 15%Z TEscape;
+          mkt [120]%N 16%Z TCommandName].
+  vm_compute. repeat split; discriminate.
+Qed.
+
+(* ====================================================================== *)
+(* non-vacuity                                                             *)
+(* ====================================================================== *)
+
+Lemma forallb_Forall {A} (f : A -> bool) l : forallb f l = true -> Forall (fun x => f x = true) l.
+Proof. intro H. apply Forall_forall. apply forallb_forall. exact H. Qed.
+
+(* the document (150 characters): commands, arguments after a blank and after
+   a line break, inline/display math, a comment, escaped symbols, a sizing
+   command, an item with an optional argument *)
+Definition example_doc : str := [92; 115; 101; 99; 116; 105; 111; 110; 123; 73; 110; 116; 114; 111; 125; 32; 116; 101; 120; 116; 32; 92; 116; 101; 120; 116; 98; 102; 32; 123; 98; 111; 108; 100; 125; 10; 92; 99; 105; 116; 101; 10; 91; 112; 46; 32; 51; 93; 123; 107; 101; 121; 125; 32; 36; 120; 94; 50; 36; 32; 97; 110; 100; 32; 36; 36; 121; 36; 36; 32; 37; 32; 97; 32; 99; 111; 109; 109; 101; 110; 116; 10; 92; 91; 32; 92; 108; 101; 102; 116; 40; 32; 97; 32; 92; 114; 105; 103; 104; 116; 41; 32; 92; 93; 32; 92; 37; 32; 92; 38; 32; 92; 123; 32; 92; 92; 32; 109; 111; 114; 101; 32; 92; 105; 116; 101; 109; 91; 97; 93; 32; 98; 32; 32; 123; 99; 125; 32; 92; 40; 122; 92; 41; 32; 101; 110; 100; 46; 46; 46]%N.
+
+Example example_doc_props :
+  length example_doc = 150 /\ clean example_doc = true /\ start_quirk example_doc = false /\
+  length (fst (tokens_of_string example_doc)) = 65.
+Proof. vm_compute. repeat split. Qed.
+
+(* the hypotheses of tokinv hold of the tokenizer's output on the document *)
+Example example_doc_shaped :
+  let toks := fst (tokens_of_string example_doc) in
+  forallb shape toks = true /\ follows_ok toks = true /\ first_ok toks = true /\
+  texts toks = example_doc.
+Proof. vm_compute. repeat split. Qed.
+
+(* tokinv applied to it *)
+Example example_doc_tokinv :
+  let toks := fst (tokens_of_string example_doc) in
+  tokens_of_string (texts toks) = (repos 0 toks, TEnd).
+Proof.
+  cbv zeta. apply tokinv.
+  - apply forallb_Forall. vm_compute. reflexivity.
+  - vm_compute. reflexivity.
+  - vm_compute. reflexivity.
+Qed.
+
+(* "\frac {a}" eol "{b}": both argument spacers deleted *)
+Example example_drop_spacers :
+  let s := [92; 102; 114; 97; 99; 32; 123; 97; 125; 10; 123; 98; 125]%N in
+  let toks := fst (tokens_of_string s) in
+  exists l', DropSp toks l' /\ texts l' = [92; 102; 114; 97; 99; 123; 97; 125; 123; 98; 125]%N /\
+             shaped toks /\ follows_ok toks = true /\ first_ok toks = true /\
+             start_quirk (texts l') = false /\
+             tokens_of_string (texts l') = (repos 0 l', TEnd).
+Proof.
+  cbv zeta.
+  set (l' := [mkt [92]%N 0%Z TEscape; mkt [102; 114; 97; 99]%N 1%Z TCommandName;
+              mkt [123]%N 6%Z TGroupBegin; mkt [97]%N 7%Z TText; mkt [125]%N 8%Z TGroupEnd;
+              mkt [123]%N 10%Z TGroupBegin; mkt [98]%N 11%Z TText; mkt [125]%N 12%Z TGroupEnd]).
+  assert (D : DropSp (fst (tokens_of_string [92; 102; 114; 97; 99; 32; 123; 97; 125; 10; 123; 98; 125]%N)) l').
+  { vm_compute fst.
+    apply (DS_step [mkt [92]%N 0%Z TEscape; mkt [102; 114; 97; 99]%N 1%Z TCommandName]
+                   (mkt [32]%N 5%Z TMergedSpacer) (mkt [123]%N 6%Z TGroupBegin));
+      [reflexivity | left; reflexivity | vm_compute; reflexivity |].
+    apply (DS_step [mkt [92]%N 0%Z TEscape; mkt [102; 114; 97; 99]%N 1%Z TCommandName;
+                    mkt [123]%N 6%Z TGroupBegin; mkt [97]%N 7%Z TText; mkt [125]%N 8%Z TGroupEnd]
+                   (mkt [10]%N 9%Z TMergedSpacer) (mkt [123]%N 10%Z TGroupBegin));
+      [reflexivity | left; reflexivity | vm_compute; reflexivity |].
+    apply DS_done. }
+  assert (H1 : shaped (fst (tokens_of_string [92; 102; 114; 97; 99; 32; 123; 97; 125; 10; 123; 98; 125]%N))) by (apply forallb_Forall; vm_compute; reflexivity).
+  assert (H2 : follows_ok (fst (tokens_of_string [92; 102; 114; 97; 99; 32; 123; 97; 125; 10; 123; 98; 125]%N)) = true) by (vm_compute; reflexivity).
+  assert (H3 : first_ok (fst (tokens_of_string [92; 102; 114; 97; 99; 32; 123; 97; 125; 10; 123; 98; 125]%N)) = true) by (vm_compute; reflexivity).
+  assert (H4 : start_quirk (texts l') = false) by (vm_compute; reflexivity).
+  exists l'. split; [exact D|]. split; [vm_compute; reflexivity|].
+  split; [exact H1|]. split; [exact H2|]. split; [exact H3|]. split; [exact H4|].
+  apply (drop_spacers_retokenize _ l' D H1 H2 H3 H4).
+Qed.
+
+(* cmd_not_sizing_ok: "textbf" is not the letter part of a sizing command *)
+Example example_not_sizing :
+  mem_str [116; 101; 120; 116; 98; 102]%N sizing_prefixes = false /\
+  mem_str [108; 101; 102; 116]%N sizing_prefixes = true.
+Proof. vm_compute. split; reflexivity. Qed.
+
+(* start_quirk_first_token: "a\" *)
+Example example_quirk : start_quirk [97; 92]%N = true.
+Proof. vm_compute. reflexivity. Qed.
+
+(* ====================================================================== *)
+(* TLineBreak is never produced: rule 5 is shadowed by rule 1              *)
+(* (any input, NUL/DEL included)                                           *)
+(* ====================================================================== *)
+
+Lemma lookup_asym_not_lb a b : lookup_asym Tables.asym_map a b <> Some TLineBreak.
+Proof. destruct a; destruct b; vm_compute; discriminate. Qed.
+
+Lemma lookup_sym_not_lb a : lookup_sym Tables.symbols_map a <> Some TLineBreak.
+Proof. destruct a; vm_compute; discriminate. Qed.
+
+Lemma line_break_shadowed rest :
+  rule_escaped_symbols rest = RNone ->
+  match rule_line_break rest with RTok _ _ => False | _ => True end.
+Proof.
+  unfold rule_escaped_symbols, rule_line_break.
+  destruct rest as [|c0 [|c1 r]]; try (intros _; destruct (is_cat CEscape c0); exact I).
+  - intros _. exact I.
+  - destruct (is_cat CEscape c0); [|intros _; exact I].
+    destruct (is_cat CEscape c1) eqn:E1; [|intros _; exact I].
+    apply is_cat_true in E1. rewrite E1. vm_compute. discriminate.
+Qed.
+
+Lemma run_rules_no_linebreak cx rest t rest' :
+  run_rules Tables.rule_order cx rest = RTok t rest' -> tcat t <> TLineBreak.
+Proof.
+  unfold Tables.rule_order. cbn [run_rules run_rule].
+  destruct (rule_escaped_symbols rest) as [|t1 r1|r1|] eqn:E1; try discriminate.
+  2:{ intro H. inversion H; subst. unfold rule_escaped_symbols in E1.
+      destruct rest as [|c0 [|c1 r]]; try discriminate E1;
+        destruct (is_cat CEscape c0); try discriminate E1.
+      destruct (mem_cc (ccat c1) Tables.escaped_second_cats); inversion E1. discriminate. }
+  destruct (rule_comment (cx_prev cx) rest) as [|t2 r2|r2|] eqn:E2; try discriminate.
+  2:{ intro H. inversion H; subst. unfold rule_comment in E2.
+      destruct rest as [|c0 r]; try discriminate E2.
+      destruct (is_cat CComment c0 && comment_allowed (cx_prev cx)); try discriminate E2.
+      destruct (take_while _ r). inversion E2. discriminate. }
+  destruct (rule_math_sym_switch rest) as [|t3 r3|r3|] eqn:E3; try discriminate.
+  2:{ intro H. inversion H; subst. unfold rule_math_sym_switch in E3.
+      destruct rest as [|c0 [|c1 r]]; try discriminate E3;
+        destruct (is_cat CMathSwitch c0); try discriminate E3.
+      - inversion E3. discriminate.
+      - destruct (is_cat CMathSwitch c1); inversion E3; discriminate. }
+  destruct (rule_math_asym_switch rest) as [|t4 r4|r4|] eqn:E4; try discriminate.
+  2:{ intro H. inversion H; subst. unfold rule_math_asym_switch in E4.
+      destruct rest as [|c0 [|c1 r]]; try discriminate E4.
+      destruct (lookup_asym Tables.asym_map (ccat c0) (ccat c1)) as [k|] eqn:Ek; try discriminate E4.
+      inversion E4. cbn [tcat]. intro F. subst k. exact (lookup_asym_not_lb _ _ Ek). }
+  pose proof (line_break_shadowed rest E1) as S5.
+  destruct (rule_line_break rest) as [|t5 r5|r5|] eqn:E5; try discriminate; try contradiction.
+  destruct (rule_ignore rest) as [|t6 r6|r6|] eqn:E6; try discriminate.
+  2:{ unfold rule_ignore in E6. destruct (take_while _ rest) as [sk r']. destruct sk; discriminate E6. }
+  destruct (rule_spacers (cx_idx cx) rest) as [|t7 r7|r7|] eqn:E7; try discriminate.
+  2:{ intro H. inversion H; subst. unfold rule_spacers in E7.
+      destruct (take_while (is_cat CSpacer) rest) as [s1 r1].
+      destruct (match r1 with
+                | c :: r' => if is_cat CEndOfLine c then ([c], r') else ([], r1)
+                | [] => ([], r1) end) as [e r2].
+      destruct (take_while (is_cat CSpacer) r2) as [s2 r3].
+      destruct r3 as [|c r3'].
+      - destruct (s1 ++ e ++ s2); inversion E7. discriminate.
+      - destruct (mem_cc (ccat c) Tables.spacer_rollback_cats); try discriminate E7.
+        destruct (s1 ++ e ++ s2); inversion E7. discriminate. }
+  destruct (rule_symbols rest) as [|t8 r8|r8|] eqn:E8; try discriminate.
+  2:{ intro H. inversion H; subst. unfold rule_symbols in E8.
+      destruct rest as [|c0 r]; try discriminate E8.
+      destruct (lookup_sym Tables.symbols_map (ccat c0)) as [k|] eqn:Ek; try discriminate E8.
+      inversion E8. cbn [tcat]. intro F. subst k. exact (lookup_sym_not_lb _ Ek). }
+  destruct (rule_punctuation (cx_points cx) (cx_prevc_punct cx) rest) as [|t9 r9|r9|] eqn:E9;
+    try discriminate.
+  2:{ intro H. inversion H; subst. unfold rule_punctuation in E9.
+      destruct (prev_is_escape (cx_prevc_punct cx)); try discriminate E9.
+      destruct (find_point (cx_points cx) (chars_of rest)) as [q|]; try discriminate E9.
+      destruct (firstn (length q) rest); inversion E9. discriminate. }
+  destruct (rule_command_name (cx_prevc_cmd cx) rest) as [|t10 r10|r10|] eqn:E10; try discriminate.
+  2:{ intro H. inversion H; subst. unfold rule_command_name in E10.
+      destruct (prev_is_escape (cx_prevc_cmd cx)); try discriminate E10.
+      destruct rest as [|c0 r]; try discriminate E10.
+      destruct (is_cat CLetter c0); try discriminate E10.
+      destruct (take_while _ r). inversion E10. discriminate. }
+  unfold rule_string. destruct (take_while _ rest). intro H. inversion H. discriminate.
+Qed.
+
+Lemma loop_no_linebreak fuel : forall pts idx pp pc prev rest,
+  Forall (fun t => tcat t <> TLineBreak) (fst (tokenize_loop fuel pts idx pp pc prev rest)).
+Proof.
+  induction fuel as [|f IH]; intros pts idx pp pc prev rest; cbn [tokenize_loop]; [constructor|].
+  destruct rest as [|c0 r]; [constructor|].
+  destruct (run_rules Tables.rule_order (mkctx idx prev pp pc pts) (c0 :: r)) as [|t rest'|rest'|] eqn:E;
+    try constructor.
+  - specialize (IH pts (idx + Z.of_nat (length (c0 :: r) - length rest'))%Z
+                   (last_consumed (c0 :: r) rest') (last_consumed (c0 :: r) rest') (Some t) rest').
+    destruct (tokenize_loop f pts _ _ _ _ rest') as [ts e]. cbn [fst] in *.
+    constructor; [eapply run_rules_no_linebreak; exact E | exact IH].
+  - apply IH.
+Qed.
+
+Theorem no_linebreak_token s : Forall (fun t => tcat t <> TLineBreak) (fst (tokens_of_string s)).
+Proof. unfold tokens_of_string, tokenize, tokenize_with. apply loop_no_linebreak. Qed.
+
+(* "\\" is an EscapedComment token *)
+Example example_no_linebreak :
+  map (fun t => (ttext t, tcat t)) (fst (tokens_of_string [92; 92; 97]%N)) =
+  [([92; 92]%N, TEscapedComment); ([97]%N, TCommandName)].
+Proof. vm_compute. reflexivity. Qed.
+
+(* ====================================================================== *)
+(* what may follow a lone Escape token: on NUL/DEL-free input, a letter     *)
+(* (or the end of the input) -- so the next token is a CommandName or a     *)
+(* PunctuationCommandName                                                  *)
+(* ====================================================================== *)
+
+Lemma lookup_cat_in tbl c k : lookup_cat tbl c = Some k -> In k (map fst tbl).
+Proof.
+  induction tbl as [|[k' vs] tbl IH]; cbn [lookup_cat map fst]; [discriminate|].
+  destruct (mem_N c vs); [intro H; inversion H; left; reflexivity | intro H; right; apply IH, H].
+Qed.
+
+Lemma categorize_char_in c : In (categorize_char c) (COther :: map fst Tables.category_table).
+Proof.
+  unfold categorize_char. destruct (lookup_cat Tables.category_table c) as [k|] eqn:E.
+  - right. eapply lookup_cat_in. exact E.
+  - left. reflexivity.
+Qed.
+
+Theorem escape_follow_is_letter c :
+  clean_c c = true ->
+  nc_not esc2_c (Some c) && nc_not asym_c (Some c) = is_c CLetter c.
+Proof.
+  intro Hcl. pose proof (categorize_char_in c) as Hin.
+  unfold nc_not, esc2_c, asym_c, is_c, clean_c in *.
+  destruct (categorize_char c); try reflexivity; try (vm_compute in Hcl; discriminate Hcl);
+    exfalso; vm_compute in Hin;
+    repeat (destruct Hin as [Hin|Hin]; [discriminate Hin|]); exact Hin.
+Qed.
+
+Corollary escape_followed_by_command t n r :
+  shape t = true -> shape n = true -> tcat t = TEscape -> follow t (n :: r) = true ->
+  tcat n = TCommandName \/ tcat n = TPunctuationCommandName.
+Proof.
+  intros Hst Hsn Hk Hf. unfold follow in Hf. apply andb_true_iff in Hf. destruct Hf as [Hfc Hpre].
+  pose proof (shape_nonempty n Hsn) as Hne.
+  unfold followc in Hfc. rewrite Hk in Hfc. rewrite texts_hd_cons in Hfc by exact Hne.
+  destruct (ttext n) as [|c x] eqn:En; [congruence|]. cbn [hd_error] in Hfc.
+  assert (Hcl : clean_c c = true).
+  { unfold shape in Hsn. apply andb_true_iff in Hsn. destruct Hsn as [H _]. rewrite En in H.
+    cbn [forallb] in H. apply andb_true_iff in H. tauto. }
+  rewrite (escape_follow_is_letter c Hcl) in Hfc.
+  (* t ends with an escape *)
+  assert (He : ends_esc t = true).
+  { unfold shape in Hst. apply andb_true_iff in Hst. destruct Hst as [_ H]. rewrite Hk in H.
+    cbn [shape_cat] in H. unfold ends_esc. destruct (ttext t) as [|e [|? ?]]; try discriminate H.
+    cbn [last]. unfold is_c.
+    destruct (categorize_char e); vm_compute in H; try discriminate H; reflexivity. }
+  rewrite He in Hpre. cbn [pre_ok] in Hpre. unfold pre_tok in Hpre.
+  unfold shape in Hsn. apply andb_true_iff in Hsn. destruct Hsn as [_ Hsn].
+  rewrite En in *. apply is_c_true in Hfc.
+  destruct (tcat n); try (left; reflexivity); try (right; reflexivity); exfalso;
+    try discriminate Hpre; cbn [shape_cat] in Hsn; try discriminate Hsn.
+  - (* TEscape *) destruct x; [|discriminate Hsn]. rewrite Hfc in Hsn. vm_compute in Hsn. discriminate Hsn.
+  - destruct x; [|discriminate Hsn]. rewrite Hfc in Hsn. vm_compute in Hsn. discriminate Hsn.
+  - destruct x; [|discriminate Hsn]. rewrite Hfc in Hsn. vm_compute in Hsn. discriminate Hsn.
+  - unfold is_c in Hsn. rewrite Hfc in Hsn. discriminate Hsn.
+  - (* TMergedSpacer *)
+    unfold after_spacers in Hsn. cbn [drop_blanks] in Hsn. unfold is_c in Hsn. rewrite Hfc in Hsn.
+    cbn [cc_beq drop_eol] in Hsn. unfold is_c in Hsn. rewrite Hfc in Hsn.
+    cbn [cc_beq drop_blanks] in Hsn. unfold is_c in Hsn. rewrite Hfc in Hsn. discriminate Hsn.
+  - destruct x as [|? [|? ?]]; try discriminate Hsn. unfold is_c in Hsn. rewrite Hfc in Hsn. discriminate Hsn.
+  - destruct x; [|discriminate Hsn]. unfold is_c in Hsn. rewrite Hfc in Hsn. discriminate Hsn.
+  - destruct x as [|? [|? ?]]; try discriminate Hsn. unfold is_c in Hsn. rewrite Hfc in Hsn. discriminate Hsn.
+  - destruct x as [|c1 [|? ?]]; try discriminate Hsn. rewrite Hfc in Hsn.
+    rewrite asym_key_escape in Hsn by discriminate. discriminate Hsn.
+  - destruct x as [|c1 [|? ?]]; try discriminate Hsn. rewrite Hfc in Hsn.
+    rewrite asym_key_escape in Hsn by discriminate. discriminate Hsn.
+  - destruct x as [|c1 [|? ?]]; try discriminate Hsn. rewrite Hfc in Hsn.
+    rewrite asym_key_escape in Hsn by discriminate. discriminate Hsn.
+  - destruct x as [|c1 [|? ?]]; try discriminate Hsn. rewrite Hfc in Hsn.
+    rewrite asym_key_escape in Hsn by discriminate. discriminate Hsn.
+  - (* TText starting with a letter after an escape *)
+    cbn [starts_letter andb negb] in Hpre. unfold is_c in Hpre. rewrite Hfc in Hpre. discriminate Hpre.
+  - destruct x; [|discriminate Hsn]. rewrite Hfc in Hsn. vm_compute in Hsn. discriminate Hsn.
+  - destruct x; [|discriminate Hsn]. rewrite Hfc in Hsn. vm_compute in Hsn. discriminate Hsn.
+Qed.
+
+(* ====================================================================== *)
+(* Stage 4: stability under inserted closers (what the tolerant mode       *)
+(* serialises: "}", "]", "\end{name}" inserted between two tokens or at    *)
+(* the end)                                                                *)
+(* ====================================================================== *)
+
+(* first character of an inserted sequence: a closing brace/bracket or an escape *)
+Definition ins_c (c : N) : bool := is_c CGroupEnd c || is_c CBracketEnd c || is_c CEscape c.
+
+(* table fact: in the delimiter of a sizing command such a character occurs
+   only first, or second after an escape *)
+Definition delim_ins_ok_b (q : str) : bool :=
+  match drop_ls q with
+  | [] => false
+  | d0 :: tl => forallb (fun d => negb (ins_c d)) tl ||
+                (is_c CEscape d0 && match tl with [_] => true | _ => false end)
+  end.
+
+Lemma points_delim_ins_ok_b : forallb delim_ins_ok_b points = true.
+Proof. vm_compute. reflexivity. Qed.
+
+(* the token before the insertion point: a Comment would swallow the inserted
+   text, a lone Escape would fuse with it ("\" + "}"), a sizing prefix would
+   fuse with it ("\left" + "}") *)
+Definition ins_last_tok_ok (l : token) (rest : str) : bool :=
+  match tcat l with
+  | TComment | TEscape => false
+  | TCommandName =>
+    match find_point points (ttext l ++ rest) with None => true | Some _ => false end
+  | _ => true
+  end.
+
+Fixpoint ins_last_ok (a : list token) (rest : str) : bool :=
+  match a with
+  | [] => true
+  | [l] => ins_last_tok_ok l rest
+  | _ :: a' => ins_last_ok a' rest
+  end.
+
+Lemma ins_char_facts d : ins_c d = true ->
+  text_c d = false /\ rollback_c d = false /\ is_c CSpacer d = false /\
+  is_c CEndOfLine d = false /\ is_c CMathSwitch d = false /\ ls_c d = false.
+Proof.
+  unfold ins_c, text_c, rollback_c, ls_c, is_c. intro H.
+  assert (Hs : N.eqb d star = true -> False).
+  { intro E. apply N.eqb_eq in E. subst d. vm_compute in H. discriminate H. }
+  destruct (N.eqb d star); [exfalso; apply Hs; reflexivity|].
+  destruct (categorize_char d); vm_compute in H; try discriminate H; repeat split; reflexivity.
+Qed.
+
+Lemma follow_last_ins l ins b d x0 :
+  texts ins = d :: x0 -> ins_c d = true -> (forall e, pre_ok e ins = true) ->
+  follow l b = true -> ins_last_tok_ok l (texts (ins ++ b)) = true ->
+  follow l (ins ++ b) = true.
+Proof.
+  intros Ei Hd Hpre Hf Hl.
+  destruct (ins_char_facts d Hd) as (D1 & D2 & D3 & D4 & D5 & D6).
+  unfold follow in *. apply andb_true_iff in Hf. destruct Hf as [Hfc _].
+  apply andb_true_iff. split.
+  2:{ destruct ins as [|i0 ins']; [discriminate Ei|]. cbn [app pre_ok]. apply (Hpre (ends_esc l)). }
+  rewrite texts_app, Ei in *. cbn [app] in *.
+  unfold followc in *. unfold ins_last_tok_ok in Hl. cbn [hd_error nc_not] in *.
+  destruct (tcat l); try reflexivity; try discriminate Hl.
+  - rewrite D2, D3, D4. cbn [negb andb]. apply orb_true_r.
+  - rewrite D5. reflexivity.
+  - rewrite D6. cbn [negb andb]. exact Hl.
+  - rewrite D1. reflexivity.
+Qed.
+
+Lemma cmd_find_stable_ins t t' a' ins b d x0 :
+  shaped (t :: t' :: a' ++ b) -> follows_ok (t :: t' :: a' ++ b) = true ->
+  tcat t = TCommandName -> texts ins = d :: x0 -> ins_c d = true ->
+  ins_last_ok (t :: t' :: a') (texts (ins ++ b)) = true ->
+  find_point points (ttext t ++ texts (t' :: a' ++ ins ++ b)) = None.
+Proof.
+  intros Hsh Hfo Hk Ei Hd Hl.
+  inversion Hsh as [|? ? Hst Hsh1]; subst. inversion Hsh1 as [|? ? Hst' Hsh2]; subst.
+  apply shaped_app in Hsh2. destruct Hsh2 as [Hsa Hsb].
+  pose proof (shape_nonempty t' Hst') as Hne'.
+  cbn [follows_ok] in Hfo. apply andb_true_iff in Hfo. destruct Hfo as [Hft _].
+  unfold follow in Hft. apply andb_true_iff in Hft. destruct Hft as [Hfc _].
+  unfold followc in Hfc. rewrite Hk in Hfc. apply andb_true_iff in Hfc. destruct Hfc as [Hls Hnone].
+  destruct (find_point points (ttext t ++ texts (t' :: a' ++ b))) eqn:Ew; [discriminate Hnone|].
+  clear Hnone.
+  destruct (find_point points (ttext t ++ texts (t' :: a' ++ ins ++ b))) as [q|] eqn:Ew'; [|reflexivity].
+  exfalso. apply find_point_in in Ew'. destruct Ew' as [Iq Fq].
+  pose proof (find_point_none _ _ Ew q Iq) as Nq.
+  assert (Hcmd : forallb ls_c (ttext t) = true).
+  { unfold shape in Hst. apply andb_true_iff in Hst. destruct Hst as [_ Hst]. rewrite Hk in Hst.
+    cbn [shape_cat] in Hst. destruct (ttext t) as [|c m]; [discriminate Hst|].
+    apply andb_true_iff in Hst. destruct Hst as [H1 H2]. cbn [forallb]. unfold ls_c at 1.
+    rewrite H1, H2. reflexivity. }
+  pose proof points_delim_ins_ok_b as B. rewrite forallb_forall in B. specialize (B q Iq).
+  unfold delim_ins_ok_b in B.
+  assert (Hdq : drop_ls q <> []) by (destruct (drop_ls q); [discriminate B | discriminate]).
+  assert (Hhd : hd_error (texts (t' :: a' ++ ins ++ b)) = hd_error (texts (t' :: a' ++ b))).
+  { rewrite !texts_hd_cons by exact Hne'. reflexivity. }
+  rewrite <- Hhd in Hls.
+  destruct (ls_prefix_split (ttext t) q _ Hcmd Hls Fq Hdq) as [Eq FD].
+  set (D := drop_ls q) in *.
+  set (X := texts (t' :: a')).
+  assert (EW' : texts (t' :: a' ++ ins ++ b) = X ++ texts (ins ++ b)).
+  { change (t' :: a' ++ ins ++ b) with ((t' :: a') ++ ins ++ b). apply texts_app. }
+  assert (EW : texts (t' :: a' ++ b) = X ++ texts b).
+  { change (t' :: a' ++ b) with ((t' :: a') ++ b). apply texts_app. }
+  rewrite EW' in FD. rewrite EW in Nq.
+  assert (ND : firstn (length D) (X ++ texts b) <> D).
+  { intro E. apply Nq. rewrite Eq at 1. rewrite app_length, firstn_app_2, E. symmetry. exact Eq. }
+  destruct (prefix_beyond X D _ _ FD ND) as (D2 & ED & ND2 & FD2).
+  rewrite texts_app, Ei in FD2. destruct D2 as [|d' D2']; [congruence|].
+  cbn [app length firstn] in FD2. injection FD2 as E1 E2. subst d'.
+  assert (HX : exists x1 X', X = x1 :: X').
+  { unfold X. rewrite texts_cons. destruct (ttext t') as [|x1 y]; [congruence|]. cbn [app]. eauto. }
+  destruct HX as (x1 & X' & EX). rewrite EX in ED. cbn [app] in ED. rewrite ED in B.
+  assert (Hopen : forallb (fun d0 => negb (ins_c d0)) (X' ++ d :: D2') = false).
+  { rewrite forallb_app. cbn [forallb]. rewrite Hd. cbn [negb andb]. apply andb_false_r. }
+  rewrite Hopen in B. cbn [orb] in B. apply andb_true_iff in B. destruct B as [B0 B1].
+  destruct X' as [|? ?]; [|destruct X'; discriminate B1].
+  (* X = [escape]: the token before the insertion point is a lone Escape *)
+  unfold X in EX. rewrite texts_cons in EX.
+  destruct (ttext t') as [|y0 y] eqn:Et'; [congruence|].
+  cbn [app] in EX. injection EX as E0 E1'. subst y0.
+  apply app_eq_nil in E1'. destruct E1' as [Ey Ea']. subst y.
+  apply texts_nil_shaped in Ea'; [|exact Hsa]. subst a'.
+  assert (Hk' : tcat t' = TEscape).
+  { unfold shape in Hst'. apply andb_true_iff in Hst'. destruct Hst' as [_ Hst'].
+    rewrite Et' in Hst'. apply (shape_single_escape _ x1 B0 Hst'). }
+  cbn [ins_last_ok] in Hl. unfold ins_last_tok_ok in Hl. rewrite Hk' in Hl. discriminate Hl.
+Qed.
+
+Lemma insert_chain ins b d x0 : forall a,
+  shaped (a ++ b) -> follows_ok (a ++ b) = true ->
+  shaped ins -> follows_ok (ins ++ b) = true ->
+  texts ins = d :: x0 -> ins_c d = true -> (forall e, pre_ok e ins = true) ->
+  ins_last_ok a (texts (ins ++ b)) = true ->
+  shaped (a ++ ins ++ b) /\ follows_ok (a ++ ins ++ b) = true.
+Proof.
+  induction a as [|t a IH]; intros Hsh Hfo Hsi Hfi Ei Hd Hpre Hl.
+  - cbn [app] in *. split; [apply shaped_app; split; assumption | exact Hfi].
+  - cbn [app] in Hsh, Hfo. inversion Hsh as [|? ? Hst Hsh']; subst.
+    pose proof Hfo as Hfo0.
+    cbn [follows_ok] in Hfo. apply andb_true_iff in Hfo. destruct Hfo as [Hft Hfo'].
+    assert (Hl' : ins_last_ok a (texts (ins ++ b)) = true).
+    { destruct a as [|t' a']; [reflexivity|]. exact Hl. }
+    destruct (IH Hsh' Hfo' Hsi Hfi Ei Hd Hpre Hl') as [IH1 IH2].
+    split; [cbn [app]; constructor; assumption|].
+    cbn [app follows_ok]. rewrite IH2, andb_true_r.
+    destruct a as [|t' a'].
+    + cbn [app] in *. apply (follow_last_ins t ins b d x0 Ei Hd Hpre Hft). exact Hl.
+    + cbn [app] in *. inversion Hsh' as [|? ? Hst' ?]; subst.
+      pose proof (shape_nonempty t' Hst') as Hne'.
+      unfold follow in *. apply andb_true_iff in Hft. destruct Hft as [Hfc Hpre'].
+      cbn [pre_ok] in *. rewrite Hpre', andb_true_r.
+      unfold followc in *. rewrite !texts_hd_cons by exact Hne'.
+      rewrite !texts_hd_cons in Hfc by exact Hne'.
+      destruct (tcat t) eqn:Ek; cbv beta iota in Hfc |- *;
+        match goal with |- context [find_point] => idtac | _ => exact Hfc end.
+      apply andb_true_iff in Hfc. destruct Hfc as [Hls _]. rewrite Hls. cbn [andb].
+      rewrite (cmd_find_stable_ins t t' a' ins b d x0 Hsh Hfo0 Ek Ei Hd Hl). reflexivity.
+Qed.
+
+(* inserting a shaped sequence that starts with "}", "]" or an escape between
+   two tokens (or at the end: b = []) inserts exactly these tokens *)
+Theorem insert_retokenize a ins b d x0 :
+  shaped (a ++ b) -> follows_ok (a ++ b) = true -> first_ok (a ++ b) = true ->
+  shaped ins -> follows_ok (ins ++ b) = true ->
+  texts ins = d :: x0 -> ins_c d = true -> (forall e, pre_ok e ins = true) ->
+  ins_last_ok a (texts (ins ++ b)) = true ->
+  start_quirk (texts (a ++ ins ++ b)) = false ->
+  shaped (a ++ ins ++ b) /\ follows_ok (a ++ ins ++ b) = true /\
+  first_ok (a ++ ins ++ b) = true /\
+  tokens_of_string (texts (a ++ ins ++ b)) = (repos 0 (a ++ ins ++ b), TEnd).
+Proof.
+  intros Hsh Hfo Hfirst Hsi Hfi Ei Hd Hpre Hl Hq.
+  destruct (insert_chain ins b d x0 a Hsh Hfo Hsi Hfi Ei Hd Hpre Hl) as [S1 S2].
+  assert (S3 : first_ok (a ++ ins ++ b) = true).
+  { unfold first_ok in *. apply andb_true_iff in Hfirst. destruct Hfirst as [Hp _].
+    rewrite Hq. cbn [negb]. rewrite andb_true_r.
+    destruct a as [|t a']; [cbn [app]|exact Hp].
+    destruct ins as [|i0 ins']; [discriminate Ei|]. apply (Hpre false). }
+  repeat split; try assumption. apply tokinv; assumption.
+Qed.
+
+(* the single-token case: one closing brace or bracket *)
+Theorem insert_closer_retokenize a c b :
+  shaped (a ++ b) -> follows_ok (a ++ b) = true -> first_ok (a ++ b) = true ->
+  shape c = true -> tcat c = TGroupEnd \/ tcat c = TBracketEnd ->
+  pre_ok false b = true ->
+  ins_last_ok a (texts (c :: b)) = true ->
+  start_quirk (texts (a ++ c :: b)) = false ->
+  tokens_of_string (texts (a ++ c :: b)) = (repos 0 (a ++ c :: b), TEnd).
+Proof.
+  intros Hsh Hfo Hfirst Hsc Hk Hpb Hl Hq.
+  assert (Hc : exists d, ttext c = [d] /\ ins_c d = true).
+  { unfold shape in Hsc. apply andb_true_iff in Hsc. destruct Hsc as [_ H].
+    assert (G : match ttext c with
+                | [x] => match lookup_sym Tables.symbols_map (categorize_char x) with
+                         | Some k' => tc_beq k' (tcat c) | None => false end
+                | _ => false end = true).
+    { destruct Hk as [Hk|Hk]; rewrite Hk in H |- *; exact H. }
+    destruct (ttext c) as [|d [|? ?]]; try discriminate G. exists d. split; [reflexivity|].
+    destruct (lookup_sym Tables.symbols_map (categorize_char d)) as [k'|] eqn:E; [|discriminate G].
+    apply tc_eqb_eq in G. subst k'. unfold ins_c, is_c.
+    destruct Hk as [Hk|Hk]; rewrite Hk in E; destruct (categorize_char d); vm_compute in E;
+      try discriminate E; reflexivity. }
+  destruct Hc as (d & Ed & Hd).
+  assert (Hends : ends_esc c = false).
+  { unfold ends_esc. rewrite Ed. cbn [last]. unfold ins_c, is_c in *.
+    destruct Hk as [Hk|Hk]; unfold shape in Hsc; apply andb_true_iff in Hsc;
+      destruct Hsc as [_ H]; rewrite Hk, Ed in H; cbn [shape_cat] in H;
+      destruct (categorize_char d); vm_compute in H; try discriminate H; reflexivity. }
+  assert (Hsb : shaped b) by (apply shaped_app in Hsh; tauto).
+  assert (Hfb : follows_ok b = true).
+  { clear - Hfo. induction a as [|t a IH]; [exact Hfo|]. cbn [app follows_ok] in Hfo.
+    apply andb_true_iff in Hfo. apply IH. tauto. }
+  change (a ++ c :: b) with (a ++ [c] ++ b) in *.
+  apply (insert_retokenize a [c] b d []); try assumption.
+  - constructor; [exact Hsc | constructor].
+  - cbn [app follows_ok]. rewrite Hfb, andb_true_r. unfold follow. rewrite Hends, Hpb, andb_true_r.
+    unfold followc. destruct Hk as [Hk|Hk]; rewrite Hk; reflexivity.
+  - unfold texts. cbn [map concat]. rewrite Ed. reflexivity.
+  - intro e. cbn [pre_ok]. unfold pre_tok. destruct Hk as [Hk|Hk]; rewrite Hk; reflexivity.
+Qed.
+
+(* the side conditions are needed *)
+Theorem insert_closer_refuted :
+  exists a c,
+    shaped a /\ follows_ok a = true /\ first_ok a = true /\ shape c = true /\
+    tcat c = TGroupEnd /\ start_quirk (texts (a ++ [c])) = false /\
+    map ttext (fst (tokens_of_string (texts (a ++ [c])))) <> map ttext (a ++ [c]).
+Proof.
+  (* "{\left" + "}" *)
+  exists [mkt [123]%N 0%Z TGroupBegin; mkt [92]%N 1%Z TEscape;
+          mkt [108; 101; 102; 116]%N 2%Z TCommandName], (mkt [125]%N 6%Z TGroupEnd).
+  split; [apply forallb_Forall; vm_compute; reflexivity|].
+  vm_compute. repeat split; discriminate.
+Qed.
+
+(* "\begin{a}{x" closed by the tolerant mode: "}" and "\end{a}" appended *)
+Example example_insert :
+  let a := fst (tokens_of_string [92; 98; 101; 103; 105; 110; 123; 97; 125; 123; 120]%N) in
+  let ins := fst (tokens_of_string [125; 92; 101; 110; 100; 123; 97; 125]%N) in
+  shaped a /\ follows_ok a = true /\ first_ok a = true /\
+  ins_last_ok a (texts (ins ++ [])) = true /\
+  tokens_of_string (texts (a ++ ins ++ [])) = (repos 0 (a ++ ins ++ []), TEnd) /\
+  texts (a ++ ins ++ []) = [92; 98; 101; 103; 105; 110; 123; 97; 125; 123; 120; 125; 92; 101; 110; 100; 123; 97; 125]%N.
+Proof.
+  cbv zeta.
+  set (a := fst (tokens_of_string [92; 98; 101; 103; 105; 110; 123; 97; 125; 123; 120]%N)).
+  set (ins := fst (tokens_of_string [125; 92; 101; 110; 100; 123; 97; 125]%N)).
+  assert (H1 : shaped a) by (apply forallb_Forall; vm_compute; reflexivity).
+  assert (H2 : follows_ok a = true) by (vm_compute; reflexivity).
+  assert (H3 : first_ok a = true) by (vm_compute; reflexivity).
+  assert (H4 : shaped ins) by (apply forallb_Forall; vm_compute; reflexivity).
+  assert (H5 : follows_ok (ins ++ []) = true) by (vm_compute; reflexivity).
+  assert (H6 : ins_last_ok a (texts (ins ++ [])) = true) by (vm_compute; reflexivity).
+  assert (H7 : start_quirk (texts (a ++ ins ++ [])) = false) by (vm_compute; reflexivity).
+  split; [exact H1|]. split; [exact H2|]. split; [exact H3|]. split; [exact H6|].
+  split; [|vm_compute; reflexivity].
+  apply (insert_retokenize a ins [] 125%N [92; 101; 110; 100; 123; 97; 125]%N);
+    first [ assumption | vm_compute; reflexivity
+          | intro e; destruct e; vm_compute; reflexivity ].
 Qed.
